@@ -810,7 +810,8 @@ func runC18(c *gen.Ctx) error {
 			}
 		}
 	}
-	return nil
+	// ---- strict codecs over sequences of calls (c18seq.go)
+	return c18SeqGen(c)
 }
 
 // runC18Facts writes ConfModel/Generated/C18Facts.lean from the tree.
